@@ -315,6 +315,17 @@ func registerNumberStubs(reg func(string, intrinsic)) {
 		v := x.pf(x.bytesOf(s))
 		// a decimal literal accepted without error denotes a finite number (range errors are assumed away)
 		x.axiom(x.tb.Not(x.tb.Or(x.tb.fun(OFIsNaN, v), x.tb.fun(OFIsInf, v))))
+		// correct rounding, integer case: a literal that the real readFloat scanned as mantissa m (all
+		// digits kept, no decimal exponent) denotes the integer m, and ParseFloat returns the float64
+		// nearest to it (round to nearest even) — documented contract of ParseFloat. The digits -> m
+		// step is the real readFloat code; only the final rounding is stated here.
+		if mant, ok := rf[0].(*Term); ok {
+			tb := x.tb
+			exact := tb.And(tb.Eq(rf[1].(*Term), tb.Int(0)), tb.Not(rf[3].(*Term)))
+			conv := tb.FFromInt(mant, false, SF64)
+			val := tb.Ite(rf[2].(*Term), tb.fun(OFNeg, conv), conv)
+			x.axiom(tb.Implies(exact, tb.Eq(tb.FToBits(v), tb.FToBits(val))))
+		}
 		return tuple{v, iface{}}
 	})
 	// harness-side access to the same contract function
